@@ -13,6 +13,12 @@ def run(ctx):
     os.remove(s["out"])
     if rr["counters"].get("vectors", 0) < 5:
         raise ToolError("real-forwarder job ran only %d vectors" % rr["counters"].get("vectors", 0))
+    import h3_jobs
+    h3 = h3_jobs.h3_job(ctx)
+    h3a = h3.pop("h3_assumptions")
+    cov.update(h3)
+    cov["evaluations"] += h3["h3_evaluations"]
+    cov["traces_validated_against_impl"] += h3["h3_evaluations"]
     cov["real_forwarder_vectors"] = rr["counters"]["vectors"]
     cov["evaluations"] += rr["evaluations"]
     cov["traces_validated_against_impl"] += rr["evaluations"]
@@ -22,7 +28,6 @@ def run(ctx):
                    "unreachable, connector timeout, never-completing connect (establishment timer under the paused clock), policy refusals, resolver "
                    "failure, EMFILE, multiplexer creation failure and ICMP not configured. Non-trivial = not (valid credentials and successful connect).")
     return ctx.finish("model_checking", cov, assumptions=[
-        "HTTP/3 is not driven",
         "most outbound outcomes are injected through the scripted forwarder; ok / refused / ENETUNREACH / policy refusals / resolver failure are additionally produced by the real TcpForwarder on loopback (connect timeout and EHOSTUNREACH cannot be produced offline)",
         "trusted: TLC, scripted forwarder / HTTP clients, verif::tunnel door",
-    ])
+    ] + h3a)
